@@ -266,6 +266,7 @@ def check(tier: str) -> Result:
             "shape and dtype mismatches are rejected on the way" if sup else f"parent validation skipped (rejections reached: {sorted(rejb)})")
     found = {}
     fails = is_or = False
+    bypass = []
     for fn, node, path, _ in raise_exits(vb):
         for t, pol, pf in path:
             if not pol:
@@ -288,9 +289,24 @@ def check(tier: str) -> Result:
                         got[bound] = (op, red)
             if got:
                 found, fails, is_or = got, True, len(ds) == 2
+                # every other condition on the way to this raise must be one of the parent's (non-rejecting) mismatch
+                # tests: an extra own condition means some values skip the bounds test altogether
+                extra = []
+                for t2, pol2, pf2 in path:
+                    if t2 is t:
+                        continue
+                    if t2.kind == "cmp" and t2.args[0] in ("!=", "=="):
+                        sides = [strip_cast(t2.args[1]), strip_cast(t2.args[2])]
+                        if any(x.kind == "attr" and x.args[0] is self_b for x in sides) and any(x.kind == "attr" and x.args[0] is not self_b and contains(x, valb) for x in sides):
+                            continue
+                    if pf2 is bv and (contains(t2, self_b) or contains(t2, valb)):
+                        extra.append((t2, pol2))
+                bypass = extra
     res.add("C16.R4", bv.loc(), "specs.BoundedArray.validate", "raises iff any(value < minimum) or any(value > maximum) (inclusive bounds)",
             found.get("minimum") == ("<", True) and found.get("maximum") == (">", True) and fails and is_or,
             f"comparators {found}; joined by or: {is_or}; leads to failure: {fails}")
+    res.add("C16.R4", bv.loc(), "specs.BoundedArray.validate", "the bounds test is reached by every value that passed the shape/dtype validation", fails and not bypass,
+            "no other condition guards the bounds test" if not bypass else "the bounds test is skipped unless " + " and ".join(("" if pol else "not ") + txt(t, 3, 60) for t, pol in bypass))
     # ------------------------------------------------------------------ R5 generate / nested spec
     sp = classes["Spec"]
     sinit = sp.methods.get("__init__")
@@ -401,7 +417,7 @@ CONV = {"jumanji_specs_to_dm_env_specs": {"DiscreteArray": {"num_values": "num_v
                                           "Array": {"shape": "shape", "dtype": "dtype"}},
         "jumanji_specs_to_gym_spaces": {"DiscreteArray": {"n": "num_values"}, "MultiDiscreteArray": {"nvec": "num_values"},
                                         "BoundedArray": {"low": "minimum", "high": "maximum", "shape": "shape", "dtype": "dtype"},
-                                        "Array": {"shape": "shape", "dtype": "dtype"}}}
+                                        "Array": {"shape": "shape", "dtype": "dtype", "low": "-inf", "high": "+inf"}}}
 
 
 def conversion_obligations(res: Result, tree, rule: str) -> int:
@@ -480,10 +496,34 @@ def _relay_of(a: T, spec: T):
     a = uncopy(a)
     if a.kind == "attr" and a.args[0] is spec:
         return a.args[1]
+    inf = _infinity(a)
+    if inf is not None:
+        return inf
     n = ext_name(a)
     if n is not None and n.split(".")[-1] in ("broadcast_to", "asarray", "array") and a.args[1]:
         return _relay_of(a.args[1][0], spec)
     return f"<{txt(a, 3, 50)}>"
+
+
+def _infinity(a: T):
+    """'+inf' / '-inf' for the spellings of an infinite bound (an unbounded spec must convert to an unbounded space)."""
+    a = strip_cast(a)
+    if a.kind == "un" and a.args[0] == "-":
+        i = _infinity(a.args[1])
+        return {"+inf": "-inf", "-inf": "+inf"}.get(i)
+    if a.kind == "ext" and a.args[0].split(".")[-1] in ("inf", "Inf", "infty", "Infinity", "PINF"):
+        return "+inf"
+    if a.kind == "ext" and a.args[0].split(".")[-1] == "NINF":
+        return "-inf"
+    if a.kind == "const" and isinstance(a.args[0], float) and a.args[0] in (float("inf"), float("-inf")):
+        return "+inf" if a.args[0] > 0 else "-inf"
+    if ext_name(a) == "builtins.float" and a.args[1] and a.args[1][0].kind == "const" and isinstance(a.args[1][0].args[0], str):
+        v = a.args[1][0].args[0].strip().lower()
+        if v in ("inf", "+inf", "infinity", "+infinity"):
+            return "+inf"
+        if v in ("-inf", "-infinity"):
+            return "-inf"
+    return None
 
 
 def _branch_stmts(body):
